@@ -2,6 +2,14 @@
 pub fn randombytes_buf(len: usize) -> Vec<u8> {
     use rand_core::{OsRng, TryRngCore};
 
+    #[cfg(feature = "dryoc_verif")]
+    {
+        let mut r: Vec<u8> = vec![0; len];
+        if verif_hooks::fill(r.as_mut_slice()) {
+            return r;
+        }
+    }
+
     let mut r: Vec<u8> = vec![0; len];
     OsRng
         .try_fill_bytes(r.as_mut_slice())
@@ -15,7 +23,65 @@ pub fn randombytes_buf(len: usize) -> Vec<u8> {
 pub fn copy_randombytes(dest: &mut [u8]) {
     use rand_core::{OsRng, TryRngCore};
 
+    #[cfg(feature = "dryoc_verif")]
+    if verif_hooks::fill(dest) {
+        return;
+    }
+
     OsRng
         .try_fill_bytes(dest)
         .expect("failed to fill random bytes");
+}
+
+/// Verification hook (feature `dryoc_verif`): a thread-local entropy override.
+/// When a source is installed, random bytes are taken from it (cyclically) and
+/// every request is recorded, so a check can predict randomised outputs and
+/// count how many bytes each operation draws.
+#[cfg(feature = "dryoc_verif")]
+pub mod verif_hooks {
+    use std::cell::RefCell;
+
+    #[derive(Default)]
+    struct Source {
+        bytes: Vec<u8>,
+        pos: usize,
+        draws: Vec<usize>,
+    }
+
+    thread_local! {
+        static SOURCE: RefCell<Option<Source>> = RefCell::new(None);
+    }
+
+    /// Installs (or with `None` removes) the override for the current thread.
+    pub fn set_entropy(bytes: Option<Vec<u8>>) {
+        SOURCE.with(|s| {
+            *s.borrow_mut() = bytes.map(|bytes| Source {
+                bytes,
+                pos: 0,
+                draws: vec![],
+            })
+        });
+    }
+
+    /// Sizes of the requests served since the override was installed.
+    pub fn draws() -> Vec<usize> {
+        SOURCE.with(|s| s.borrow().as_ref().map(|s| s.draws.clone()).unwrap_or_default())
+    }
+
+    pub(crate) fn fill(dest: &mut [u8]) -> bool {
+        SOURCE.with(|s| {
+            let mut s = s.borrow_mut();
+            match s.as_mut() {
+                Some(src) if !src.bytes.is_empty() => {
+                    for b in dest.iter_mut() {
+                        *b = src.bytes[src.pos % src.bytes.len()];
+                        src.pos += 1;
+                    }
+                    src.draws.push(dest.len());
+                    true
+                }
+                _ => false,
+            }
+        })
+    }
 }
